@@ -1659,7 +1659,7 @@ yaml.add_representer(np.int64, int_representer)
 
 
 def float_representer(dumper, data):
-    return dumper.represent_float(data)
+    return dumper.represent_float(float(data))
 
 
 yaml.add_representer(np.float32, float_representer)
